@@ -97,6 +97,9 @@ def run(ctx):
     ok, log = ctx.translate_registry()
     if not ok:
         ctx.broken.append(('translator-registry', log[-600:]))
+    ok, log = ctx.translate_grammars()
+    if not ok:
+        ctx.broken.append(('translator-grammar', log[-600:]))
     ok, log = ctx.lean_build(MODULES + ['sqfmodel'])
     if not ok:
         ctx.broken.append(('lake-build', core_tail(log)))
@@ -113,6 +116,25 @@ def run(ctx):
         cases += exhaustive_shapes(ctx)
         exhaustive = True
     impl, model = ctx.run_pair([c[1] for c in cases]) if os.path.exists(ctx.driver()) else (ctx.run_pair([c[1] for c in cases], model=False)[0], {})
+    # the same inputs through the LALR tables and actions translated from parser.tab.cc (model side only): the
+    # hand-written parser model, about which the theorems are, must agree with the tables of the current tree
+    n_tab = 0
+    if model:
+        import subprocess
+        lr_lines = [('asmlr ' + c[1][4:]) for c in cases if c[1].startswith('asm ')]
+        p = subprocess.run([ctx.driver()], input=('\n'.join(lr_lines) + '\n').encode(), stdout=subprocess.PIPE, stderr=subprocess.DEVNULL)
+        lr = {}
+        for ln in p.stdout.decode('latin-1').split('\n'):
+            if ln:
+                k, _, v = ln.partition(' ')
+                lr[k] = v
+        for cid, line, meta in cases:
+            if line.startswith('asm ') and lr.get(cid) != model.get(cid):
+                n_tab += 1
+                if n_tab <= 3:
+                    rep.violation('correspondence', {'property': 'C01', 'kind': 'translated-LALR-tables-vs-hand-written-parser-model', 'seed': ctx.seed, 'case': cid,
+                                                     'input': meta['text'].decode('latin-1'), 'input_hex': meta['text'].hex(), 'registry': meta['mode'],
+                                                     'tables': lr.get(cid), 'model': model.get(cid), 'implementation': impl.get(cid), 'line': line})
 
     distinct = set()
     n_mismatch = n_oracle = 0
@@ -145,13 +167,13 @@ def run(ctx):
     cov = {
         'evaluations': len(cases), 'distinct_nontrivial': len(distinct),
         'rule': 'random expression/statement trees over the live registry (%d names) and a synthetic registry with every operator class at every level, rendered with required + redundant parentheses, random white space and letter case; malformed token streams; non-trivial = at least 3 tree nodes, distinct by text' % (sum(1 for _ in open(os.path.join(core.SCRATCH, 'registry.dump'))) if os.path.exists(os.path.join(core.SCRATCH, 'registry.dump')) else 0),
-        'samples': samples, 'oracle_failures': n_oracle, 'model_mismatches': n_mismatch,
+        'samples': samples, 'oracle_failures': n_oracle, 'model_mismatches': n_mismatch, 'table_driver_mismatches': n_tab,
         'size_histogram': {str(k): v for k, v in sorted(sizes.items())},
         'generator_stats': stats, 'exhaustive': exhaustive,
         'exhaustive_note': 'thorough tier enumerates all (outer class x level, inner class x level, side/paren form) shapes of the synthetic registry' if exhaustive else 'not in this tier',
     }
     return rep.finish(cov, ['operator semantics are irrelevant to C01: only the emitted instruction listing is compared',
-                            'LALR tables of parser.tab.cc are exercised (every case goes through them), not proved equal to the grammar'])
+                            'the LALR tables and semantic actions of parser.tab.cc are translated into the model on every run (translators/lalr.py, LR.lean) and run on every case beside the hand-written parser model; their agreement is observed on the generated inputs, it is not a theorem (no LR-correctness proof); the yylex classification is tied by kernel-checked obligations over the translated switch'])
 
 
 def load_corpus():
